@@ -174,6 +174,11 @@ class Builder:
             return ufl.div(B(r[1]))
         if op in ("dot", "inner", "outer", "cross", "elem_mult", "elem_div", "elem_pow", "elem_op"):
             return getattr(ufl, op)(B(r[1]), B(r[2]))
+        if op == "extop":  # ["extop", operand, derivative multi-index, element spec]: an ExternalOperator (scalar valued)
+            from ufl.core.external_operator import ExternalOperator
+
+            V = ufl.FunctionSpace(self.mesh, make_element(r[3], self.cell))
+            return ExternalOperator(B(r[1]), function_space=V, derivatives=tuple(r[2]))
         if op == "outerN":  # outer product of three or more operands
             return ufl.outer(*[B(x) for x in r[1]])
         if op == "dx":
